@@ -469,6 +469,13 @@ d_relay := {}; d_calc_allowed_ts := {}; d_distributed_2z := {}; d_burned_2z := {
         for off in [offset_of!(pp::state::ProgramConfig, admin_key), offset_of!(pp::state::ProgramConfig, sentinel_key)] {
             if data.len() >= 8 + off + 32 { data[8 + off..8 + off + 32].copy_from_slice(&ak); }
         }
+        // and as liberal as a configuration can be: no pause flag, a deposit of one lamport, no fee, the largest backup limit
+        {
+            let off = offset_of!(pp::state::ProgramConfig, flags); for x in &mut data[8 + off..8 + off + 8] { *x = 0; }
+            let off = offset_of!(pp::state::ProgramConfig, request_deposit_lamports); data[8 + off..8 + off + 8].copy_from_slice(&1u64.to_le_bytes());
+            let off = offset_of!(pp::state::ProgramConfig, request_fee_lamports); data[8 + off..8 + off + 8].copy_from_slice(&0u64.to_le_bytes());
+            let off = offset_of!(pp::state::ProgramConfig, solana_validator_backup_ids_limit); data[8 + off..8 + off + 2].copy_from_slice(&u16::MAX.to_le_bytes());
+        }
         self.op(Op::ForgeRaw { to: to.clone(), owner: owner.clone(), lamports: a.lamports, data }).await;
     }
     /// ProgramData look-alike naming `attacker` as upgrade authority (valid loader state, any owner, any address)
